@@ -408,6 +408,11 @@ def batch_global(n: S, ranks: Optional[RankFacts] = None) -> Optional[Hit]:
         base, idx = a[0], a[1]
         comps = list(idx.args) if isinstance(idx, S) and idx.op == "tuple" else [idx]
         first = comps[0] if comps else None
+        # x[(0,) * x.dim()]: the "first item" idiom -- element 0 along every axis, the batch axis included
+        if isinstance(idx, S) and idx.op == "*" and len(idx.args) == 2:
+            tz = [t for t in idx.args if isinstance(t, S) and t.op == "tuple" and t.args and all(_cint(c) == 0 for c in t.args)]
+            if tz:
+                first = tz[0].args[0]
         if first is not None and _cint(first) is not None:
             b = nf.strip(base)
             if b.op == "meth" and b.args[1] in TUPLE_RETURNING:
